@@ -91,6 +91,16 @@ CLAIMED = {
              "TLC judges the outbound messages carrying each inbound message's system bytes.",
         note="callback class per S/F is read from the handler's public callback table; unrelated outbound traffic ignored",
         design="5/C08"),
+    "C12": dict(
+        technique="nondeterministic TLA+ monitor ReportMon / behaviour spec ReportGen checked by TLC; complete core transition "
+                  "relation + random walks replayed on a real GemEquipmentHandler; every step validated by TLC (ReportJudge)",
+        text="E5 semantics of S2F33/35/37, S6F15 and triggers over small id domains form a TLA+ monitor; TLC checks Integrity, "
+             "RefusedChangesNothing and ReportWellFormed on all histories (16k states, 3M transitions) and dumps the complete "
+             "core-alphabet relation (22k edges), all of which are replayed (covering walks) together with random walks over the "
+             "147-request alphabet on a real equipment handler; acknowledge codes, decoded S6F16/S6F11 contents, aborts and the "
+             "public report/link tables after each step are validated by TLC.",
+        note="id domains are small (2+1 reports, 2+1 events, 2+1 variables); requests have at most two entries",
+        design="5/C12"),
 }
 
 NOT_YET = "check not built yet in this round (specification and harness in progress; see DESIGN.md section 9)"
